@@ -86,11 +86,28 @@ def cases(draw):
             "rng_seed": draw(st.integers(0, 10 ** 6))}
 
 
-def case_strategy(tier):
+SHARDED = True
+DIR_SHARD = 1   # this shard explores the directory side of re-hostings on SimNet (vf/props/c27_dir.py)
+
+
+def case_strategy(tier, shard=0):
+    if shard == DIR_SHARD:
+        from . import c27_dir
+        return c27_dir.cases()
     return cases()
 
 
+def shard_budget(tier, shard):
+    """SimNet cases are ~1000 times cheaper than thread-mode runs."""
+    if shard == DIR_SHARD:
+        return {"examples": 1500 if tier == "quick" else 20000}
+    return {}
+
+
 def run_case(case):
+    if case.get("kind") == "dirsim":
+        from . import c27_dir
+        return c27_dir.run_case(case)
     import random
     from . import c22
     n, k = case["n"], case["k"]
